@@ -1280,6 +1280,32 @@ fn scale_script(sys: &Sys, o: &mut Outcome) -> u64 {
                 }
             }
         }
+        // a top layer whose directory carries NO write permission bits (a mounted read-only dump
+        // used as the top layer by mistake): whatever a write answers, it must never land in a lower
+        // layer; if it answers Ok the file is in the top layer
+        #[cfg(unix)]
+        if w.roots.len() >= 2 {
+            use std::os::unix::fs::PermissionsExt;
+            let top_root = w.roots[w.roots.len() - 1].clone();
+            let before: Vec<Tree> = w.roots[..w.roots.len() - 1].iter().map(|r| snapshot(r)).collect();
+            let _ = std::fs::set_permissions(&top_root, std::fs::Permissions::from_mode(0o555));
+            for (p, loc) in [("ro/new.bin", false), ("a", false), ("d/a", true), ("ro2.bin", false)] {
+                let r = w.fs.write(p, b"read-only top", loc);
+                if r.is_ok() {
+                    if let Some(actual) = sys.actual(p, loc) {
+                        if std::fs::read(top_root.join(norm(&actual))).ok().as_deref() != Some(&b"read-only top"[..]) {
+                            out.push(("scale:read-only-top:not-in-top".to_string(), format!("write({:?}) answered Ok although the top layer's directory has no write permission bits, but the file is not in the top layer", p)));
+                        }
+                    }
+                }
+            }
+            let _ = w.fs.create_dir("ro_dir", false);
+            let _ = std::fs::set_permissions(&top_root, std::fs::Permissions::from_mode(0o755));
+            let after: Vec<Tree> = w.roots[..w.roots.len() - 1].iter().map(|r| snapshot(r)).collect();
+            if before != after {
+                out.push(("scale:read-only-top:lower-layer-modified".to_string(), "with a top layer directory without write permission bits, write / create_dir changed a LOWER layer".to_string()));
+            }
+        }
         // many distinct paths through ONE filesystem instance (a per-instance memo of paths
         // must not recycle entries wrongly): write all, then revisit all, then overwrite the first
         let many = 1500usize;
